@@ -114,3 +114,33 @@ Proof.
   destruct H as [? H]; discriminate.
 Qed.
 End M.
+
+(* filtering by a predicate on keys / on values *)
+Lemma aget_filter_key {V} (f : N -> bool) k (m : amap V) :
+  aget k (filter (fun p => f (fst p)) m) = if f k then aget k m else None.
+Proof.
+  induction m as [|[k' v'] tl IH]; cbn [filter aget fst]; [destruct (f k); reflexivity|].
+  destruct (f k') eqn:Ef; cbn [aget].
+  - destruct (N.eqb_spec k' k) as [->|Hne]; [rewrite Ef; reflexivity|exact IH].
+  - destruct (N.eqb_spec k' k) as [->|Hne]; [rewrite Ef in *; exact IH|exact IH].
+Qed.
+
+Lemma aget_filter_val {V} (f : V -> bool) k (m : amap V) : awf m ->
+  aget k (filter (fun p => f (snd p)) m) =
+  match aget k m with Some v => if f v then Some v else None | None => None end.
+Proof.
+  unfold awf. induction m as [|[k' v'] tl IH]; cbn [filter aget snd map fst]; [reflexivity|].
+  intros Hnd. inversion Hnd as [|? ? Hni Hnd']; subst. specialize (IH Hnd').
+  destruct (N.eqb_spec k' k) as [->|Hne].
+  - destruct (f v') eqn:Ef; cbn [aget]; [rewrite N.eqb_refl; reflexivity|].
+    rewrite IH. apply aget_none_keys in Hni. rewrite Hni. reflexivity.
+  - destruct (f v'); cbn [aget]; [destruct (N.eqb_spec k' k); [contradiction|exact IH]|exact IH].
+Qed.
+
+Lemma awf_filter {V} (f : N * V -> bool) (m : amap V) : awf m -> awf (filter f m).
+Proof.
+  unfold awf. induction m as [|[k v] tl IH]; cbn [filter map fst]; [auto|].
+  intros Hnd. inversion Hnd as [|? ? Hni Hnd']; subst. destruct (f (k, v)); cbn [map fst]; [|auto].
+  constructor; [|auto]. intros Hin. apply Hni. apply in_map_iff in Hin as [[a b] [<- Hin]].
+  apply filter_In in Hin as [Hin _]. apply in_map_iff. exists (a, b). auto.
+Qed.
